@@ -139,11 +139,20 @@ def probe(r, m, n, tag):
     same_state(r, m, n, tag + " probe(mode off)")
 
 
-def step(n, op, blind=False):
+def container(data, kind):
+    """the documented argument kinds of EoReader: bytes, bytearray, memoryview"""
+    if kind == "bytearray":
+        return bytearray(data)
+    if kind == "memoryview":
+        return memoryview(bytes(data))
+    return data
+
+
+def step(n, op, blind=False, kind="bytes"):
     """blind: no observation of the reader between the prefix and the operation (observing `remaining` may itself
     repair lazily maintained state, hiding a defect that a caller who does not look would hit)"""
     data = sym_bytes("data", n)
-    r = EoReader(data)
+    r = EoReader(container(data, kind))
     m = ModelReader(data)
     if not blind:
         same_state(r, m, n, "constructor")
